@@ -28,7 +28,7 @@ def run(ctx):
               "constraints hold, weights x c leaves the result unchanged.")
   ctx.trusted = ["Coq 8.16.1 kernel + vm_compute", "model Model/LSML.v tied by the loss/gradient correspondence",
                  "oracles: numpy slogdet / inv / scipy eigh", "convexity (stationary => optimal) not mechanised"]
-  ok = ctx.build_property()
+  ok = ctx.build_property(gen_needed=['Src_lsml'])
   terms, recs = [], []
   n = 150 if thorough else 30
   est = LSML()
